@@ -1085,7 +1085,8 @@ Proof.
   - destruct h as [| | | |x|x]; cbn.
     + constructor; cbn; auto.
     + destruct (dual c); constructor; cbn; auto; try discriminate; try congruence; fin.
-    + destruct (hctx c) eqn:Eh; [|destruct (sock_closed c)]; constructor; cbn; auto; try discriminate; try congruence; fin.
+    + unfold resolve_neg. destruct (hctx c) eqn:Eh; [|destruct (sock_closed c), (closed c) eqn:Ec]; cbn;
+        constructor; cbn; auto; try discriminate; try congruence; fin.
     + destruct b; cbn.
       * destruct (first_err c) as [k|] eqn:Ef; constructor; cbn; auto; try discriminate; try congruence.
         intro Hk. inversion Hk; subst. destruct (K3 eq_refl); auto. discriminate.
@@ -1106,7 +1107,8 @@ Proof.
     + destruct (installed c); constructor; cbn; auto.
     + destruct r; cbn; try (constructor; cbn; auto; fail).
       destruct (sock_closed c); constructor; cbn; auto; try discriminate; try congruence; fin.
-    + destruct h; cbn; destruct r; cbn; try destruct (sock_closed c);
+    + unfold resolve_neg. destruct (closed c) eqn:Ec, (hctx c) eqn:Eh; cbn;
+        destruct h; cbn; destruct r; cbn; try destruct (sock_closed c);
         constructor; cbn; auto; try discriminate; try congruence; fin.
     + destruct r; cbn; constructor; cbn; auto; try discriminate; try congruence; fin.
     + destruct (installed c); [|constructor; cbn; auto].
@@ -1280,6 +1282,18 @@ Qed.
 Lemma deadlines_not_in_handshake_select c :
   hs_select_ready (set_rd_dl (set_wr_dl c)) = hs_select_ready c.
 Proof. reflexivity. Qed.
+
+(* Close() during the dual-stack version negotiation (no state machine, no cancel functions yet):
+   the pending HandshakeContext is woken by the closed socket and reports ErrConnClosed (commit
+   0805f5b; before, the closed transport's own error) *)
+Definition ops_close_during_negotiation : list op :=
+  [Env ECallHandshake; StepHs BEst; SpawnClose] ++ repeat (StepUser 0) 6 ++ [StepHs BErr; StepUser 0].
+
+Example close_during_negotiation :
+  let g := run ops_close_during_negotiation (cfg0 true false) in
+  cn_close (cn g) = 0 /\ sock_closes (cn g) = 1 /\ quiet g = true /\
+  hs g = HRet HClosed /\ hres_class (est (cn g)) HClosed = KClosed.
+Proof. vm_compute. repeat split; auto. Qed.
 
 (* the race of close() with handshake(): the closeLock region of Close() runs before the cancel
    functions are installed, so its cancel calls are the no-op defaults; the read loop is
